@@ -21,7 +21,7 @@ import (
 )
 
 type input struct {
-	Kind    string     `json:"kind"` // key | bucket | split | dispatch
+	Kind    string     `json:"kind"` // key | bucket | split | splitseq | dispatch
 	Src     string     `json:"src,omitempty"`
 	Tags    []string   `json:"tags,omitempty"`
 	Name    []int      `json:"name,omitempty"`
@@ -37,6 +37,16 @@ type input struct {
 	Q        int   `json:"q,omitempty"`
 	Slow     []int `json:"slow,omitempty"`
 	Conc     bool  `json:"conc,omitempty"`
+	// Cancel: batches (indices) whose DispatchMetricMap runs under a context that is cancelled
+	// once the dispatchers have stalled on full queues (such a batch may be delivered partly).
+	// After: the last After batches are dispatched with a live context after the paused workers
+	// were released and everything else has returned.
+	Cancel []int `json:"cancel,omitempty"`
+	After  int   `json:"after,omitempty"`
+	// splitseq: shard count of each round (datapoint j belongs to round j % len(Ns)); Hold keeps
+	// the results of earlier rounds referenced and re-reads them at the end.
+	Ns   []int `json:"ns,omitempty"`
+	Hold bool  `json:"hold,omitempty"`
 }
 
 func bs(a []int) string {
@@ -108,32 +118,57 @@ func dispatch(batches []*gostatsd.MetricMap, in input, mon *[]string) [][]*gosta
 	done := make(chan struct{})
 	go func() { bh.Run(ctx); close(done) }()
 
+	// phase A: the first batches, against the paused workers; phase B: the last in.After batches
+	after := 0
+	if in.Pressure && in.After > 0 && in.After < len(batches) {
+		after = in.After
+	}
+	phaseA, phaseB := batches[:len(batches)-after], batches[len(batches)-after:]
+	ctxs := make([]context.Context, len(phaseA))
+	var cancels []context.CancelFunc
+	for i := range ctxs {
+		ctxs[i] = context.Background()
+	}
+	if in.Pressure {
+		for _, b := range in.Cancel {
+			if b >= 0 && b < len(phaseA) && ctxs[b] == context.Background() {
+				cctx, cf := context.WithCancel(context.Background())
+				ctxs[b] = cctx
+				cancels = append(cancels, cf)
+			}
+		}
+	}
+	cancelAll := func() {
+		for _, cf := range cancels {
+			cf()
+		}
+	}
+	defer cancelAll()
+
 	dispatched := make(chan struct{})
 	if in.Pressure && in.Conc {
 		var wg sync.WaitGroup
-		for _, mm := range batches {
-			mm := mm
+		for i, mm := range phaseA {
+			i, mm := i, mm
 			wg.Add(1)
-			go func() { defer wg.Done(); bh.DispatchMetricMap(context.Background(), mm) }()
+			go func() { defer wg.Done(); bh.DispatchMetricMap(ctxs[i], mm) }()
 		}
 		go func() { wg.Wait(); close(dispatched) }()
 	} else {
 		go func() {
-			for _, mm := range batches {
-				bh.DispatchMetricMap(context.Background(), mm)
+			for i, mm := range phaseA {
+				bh.DispatchMetricMap(ctxs[i], mm)
 			}
 			close(dispatched)
 		}()
 	}
-	// let the dispatchers run into the full queues, then release the paused workers
-	if len(gates) > 0 {
-		// stalled = no worker has entered ReceiveMap during two consecutive milliseconds
+	// stalled = no worker has entered ReceiveMap during two consecutive milliseconds
+	waitStall := func() {
 		last, stable := int64(-1), 0
-	stall:
 		for stable < 2 {
 			select {
 			case <-dispatched:
-				break stall
+				return
 			case <-time.After(time.Millisecond):
 			}
 			if cur := atomic.LoadInt64(&entered); cur == last {
@@ -142,13 +177,22 @@ func dispatch(batches []*gostatsd.MetricMap, in input, mon *[]string) [][]*gosta
 				last, stable = cur, 0
 			}
 		}
+	}
+	// let the dispatchers run into the full queues, cancel the marked ones while they are blocked
+	// there, let the rest run into the queues again, then release the paused workers
+	if len(gates) > 0 {
+		waitStall()
+		if len(cancels) > 0 {
+			cancelAll()
+			waitStall()
+		}
 		for _, g := range gates {
 			close(g)
 		}
+	} else {
+		cancelAll()
 	}
-	select {
-	case <-dispatched:
-	case <-time.After(20 * time.Second):
+	timedOut := func() [][]*gostatsd.MetricMap {
 		// leave the handler running: cancelling would close queues under a blocked sender
 		*mon = append(*mon, "DispatchMetricMap did not return although every worker is running")
 		_ = cancel
@@ -157,6 +201,25 @@ func dispatch(batches []*gostatsd.MetricMap, in input, mon *[]string) [][]*gosta
 		cp := make([][]*gostatsd.MetricMap, n)
 		copy(cp, got)
 		return cp
+	}
+	select {
+	case <-dispatched:
+	case <-time.After(20 * time.Second):
+		return timedOut()
+	}
+	if len(phaseB) > 0 {
+		doneB := make(chan struct{})
+		go func() {
+			for _, mm := range phaseB {
+				bh.DispatchMetricMap(context.Background(), mm)
+			}
+			close(doneB)
+		}()
+		select {
+		case <-doneB:
+		case <-time.After(20 * time.Second):
+			return timedOut()
+		}
 	}
 	// worker i must own the aggregator created i-th (the index flush reports are tagged with)
 	wait := bh.Process(context.Background(), func(workerID int, a statsd.Aggregator) {
@@ -253,6 +316,58 @@ func runOne(em *hlib.Emitter, in input) {
 		}
 		c.Coq = hlib.App("SplitCase", hlib.List(dps), hlib.Nat(in.N), whole, hlib.List(el))
 		c.Nontrivial = total >= 2 && in.N >= 2
+	case "splitseq":
+		// Split called repeatedly in one process: state kept between calls (pools, scratch
+		// buffers) must not leak from one result into another
+		nr := len(in.Ns)
+		if nr == 0 {
+			break
+		}
+		per := make([][]mmgen.Dp, nr)
+		for j, d := range in.Dps {
+			per[j%nr] = append(per[j%nr], d)
+		}
+		type held struct {
+			shards []*gostatsd.MetricMap
+			dumps  []string
+		}
+		var keep []held
+		rounds := make([]string, nr)
+		series := 0
+		for b := range per {
+			mm := mmgen.Build(per[b])
+			series += mmgen.Size(mm)
+			var shards []*gostatsd.MetricMap
+			if msg := hlib.Recover(func() { shards = mm.Split(in.Ns[b]) }); msg != "" {
+				c.Monitors = append(c.Monitors, "Split panicked: "+msg)
+				break
+			}
+			el := make([]string, len(shards))
+			for i, s := range shards {
+				el[i] = mmgen.Entries(s)
+			}
+			if in.Hold {
+				keep = append(keep, held{shards, el})
+			}
+			dps := make([]string, len(per[b]))
+			for i, d := range per[b] {
+				dps[i] = d.Coq()
+			}
+			rounds[b] = hlib.Pair(hlib.Pair(hlib.List(dps), hlib.Nat(in.Ns[b])), hlib.List(el))
+		}
+		if len(c.Monitors) > 0 {
+			break
+		}
+		for r, h := range keep {
+			for i, s := range h.shards {
+				if mmgen.Entries(s) != h.dumps[i] {
+					c.Monitors = append(c.Monitors, fmt.Sprintf("shard %d returned by Split call %d was changed by a later Split", i, r))
+				}
+			}
+		}
+		c.Obs = map[string]int{"series": series, "rounds": nr}
+		c.Coq = hlib.App("SplitSeqCase", hlib.List(rounds))
+		c.Nontrivial = series >= 2 && nr >= 2
 	case "dispatch":
 		nb := in.Batches
 		if nb < 1 {
@@ -263,10 +378,28 @@ func runOne(em *hlib.Emitter, in input) {
 			per[j%nb] = append(per[j%nb], d)
 		}
 		maps := make([]*gostatsd.MetricMap, nb)
-		total := 0
+		after := 0
+		if in.Pressure && in.After > 0 && in.After < nb {
+			after = in.After
+		}
+		var cancelled []int // batches dispatched under a context that gets cancelled
+		isCancelled := map[int]bool{}
+		if in.Pressure {
+			for _, b := range in.Cancel {
+				if b >= 0 && b < nb-after && !isCancelled[b] {
+					isCancelled[b] = true
+					cancelled = append(cancelled, b)
+				}
+			}
+		}
+		total, optional := 0, 0
 		for b := range per {
 			maps[b] = mmgen.Build(per[b])
-			total += mmgen.Size(maps[b])
+			if isCancelled[b] {
+				optional += mmgen.Size(maps[b])
+			} else {
+				total += mmgen.Size(maps[b])
+			}
 		}
 		var got [][]*gostatsd.MetricMap
 		msg := hlib.Recover(func() { got = dispatch(maps, in, &c.Monitors) })
@@ -286,6 +419,9 @@ func runOne(em *hlib.Emitter, in input) {
 				dl = append(dl, mmgen.Entries(m))
 				seriesOf(m, func(n, k string) {
 					seen++
+					if b := gostatsd.Bucket(n, k, in.N); b != w {
+						c.Monitors = append(c.Monitors, fmt.Sprintf("series %q/%q delivered to worker %d but Bucket says %d", n, k, w, b))
+					}
 					if h, ok := home[[2]string{n, k}]; ok && h != w {
 						c.Monitors = append(c.Monitors, fmt.Sprintf("series %q/%q reached workers %d and %d", n, k, h, w))
 					}
@@ -294,11 +430,14 @@ func runOne(em *hlib.Emitter, in input) {
 			}
 			obs[w] = hlib.List(dl)
 		}
-		if seen != total {
-			c.Monitors = append(c.Monitors, fmt.Sprintf("workers received %d series, the batches held %d", seen, total))
+		if seen < total || seen > total+optional {
+			c.Monitors = append(c.Monitors, fmt.Sprintf("workers received %d series, the batches held %d (+ at most %d of cancelled dispatches)", seen, total, optional))
 		}
 		if in.Pressure {
 			c.Class = "dispatch-pressure"
+			if len(cancelled) > 0 {
+				c.Class = "dispatch-cancel"
+			}
 		}
 		c.Obs = map[string]int{"series": total, "workers": in.N, "batches": nb}
 		bl := make([]string, nb)
@@ -309,7 +448,11 @@ func runOne(em *hlib.Emitter, in input) {
 			}
 			bl[b] = hlib.List(dps)
 		}
-		c.Coq = hlib.App("DispatchCase", hlib.List(bl), hlib.Nat(in.N), hlib.List(obs))
+		cl := make([]string, len(cancelled))
+		for i, b := range cancelled {
+			cl[i] = hlib.Nat(b)
+		}
+		c.Coq = hlib.App("DispatchCase", hlib.List(bl), hlib.List(cl), hlib.Nat(in.N), hlib.List(obs))
 		c.Nontrivial = total >= 2 && in.N >= 2
 	}
 	em.Emit(c)
@@ -443,6 +586,24 @@ func gen(r *hlib.Rand, i int) input {
 			if len(in.Slow) == 0 && r.Chance(3, 4) {
 				in.Slow = []int{r.Intn(n)}
 			}
+			if r.Chance(1, 2) {
+				in.After = r.Range(1, 2)
+				in.Batches += in.After
+			}
+			if r.Chance(1, 2) { // some dispatches are cancelled while blocked; ordinary ones follow
+				if in.After == 0 {
+					in.After = r.Range(1, 3)
+					in.Batches += in.After
+				}
+				for b := 0; b < in.Batches-in.After; b++ {
+					if r.Chance(1, 2) {
+						in.Cancel = append(in.Cancel, b)
+					}
+				}
+				if len(in.Cancel) == 0 {
+					in.Cancel = []int{r.Intn(in.Batches - in.After)}
+				}
+			}
 			return in
 		}
 		n := shardCount(r, false)
@@ -450,6 +611,13 @@ func gen(r *hlib.Rand, i int) input {
 			n = r.Range(1, 16)
 		}
 		return input{Kind: "dispatch", N: n, Batches: r.Range(1, 4), Dps: genDps(r, u, 0, 40)}
+	case 4: // Split called repeatedly in one process
+		u := universe(r, r.Bool())
+		in := input{Kind: "splitseq", Hold: r.Bool(), Dps: genDps(r, u, 4, 60)}
+		for k := r.Range(2, 6); k > 0; k-- {
+			in.Ns = append(in.Ns, hlib.Pick(r, []int{1, 2, 3, 4, 5, 8, r.Range(1, 64)}))
+		}
+		return in
 	default: // Split
 		u := universe(r, i%8 >= 6)
 		return input{Kind: "split", N: shardCount(r, true), Dps: genDps(r, u, 0, 40)}
